@@ -13,6 +13,7 @@
    csum cls k r = sum of the entries of row r standing in columns of class Some k. *)
 From Coq Require Import List ZArith QArith Qabs Bool Arith Lia.
 Import ListNotations.
+From PP Require Lib.RowLin Lib.RowInv.
 From PP Require Import Model.C16 Proofs.C16.
 Local Open Scope Q_scope.
 
@@ -74,6 +75,33 @@ Theorem C16_unique_solution :
 Proof. exact tpsa_unique_solution. Qed.
 Print Assumptions C16_unique_solution.
 
+(* Non-singularity per instance instead of a hypothesis: a left-inverse certificate
+   N * A = d * I, d <> 0 (N, d computed by the harness in exact rationals, the identity verified
+   exactly in Coq by RowInv.inv_ok on the assembled rows; part of check when i_inv is present,
+   i.e. on small instances) gives the trivial kernel ... *)
+Theorem C16_nonsingular_certificate :
+  forall (tol : Q) (I : inst) (N : list (list Q)) (d : Q),
+    check tol I = true -> i_inv I = Some (N, d) ->
+    forall v : vec, (forall j, (ndof I <= j)%nat -> v j == 0) ->
+                    (forall r, In r (system_rows I) -> rdot r v == 0) ->
+                    forall j, (j < ndof I)%nat -> v j == 0.
+Proof.
+  intros tol I N d H E. exact (nonsingular_certificate I N d (check_inv tol I N d H E)).
+Qed.
+Print Assumptions C16_nonsingular_certificate.
+
+(* ... so that on an exactly certified instance the translation state is THE solution, with no
+   assumption left about the matrix. *)
+Theorem C16_unique_solution_certified :
+  forall (I : inst) (N : list (list Q)) (d : Q) (t : list Q) (x : vec),
+    certified I -> RowInv.inv_ok (ndof I) (system_rows I) N d = true -> length t = i_nd I ->
+    (forall j, (ndof I <= j)%nat -> x j == sv (cls_of I) t j) ->
+    (forall r, In r (system_rows I) -> rdot r x == 0) ->
+    forall j, (j < ndof I)%nat ->
+      x j == if (j <? i_nd I * i_nc I)%nat then nth (j mod i_nd I) t 0 else 0.
+Proof. exact unique_solution_certified. Qed.
+Print Assumptions C16_unique_solution_certified.
+
 (* Soundness of the checker the tie evaluates, tolerance included: if  check tol I = true
    then for every translation t, (1) every stress row, (2) every averaging row and (3) every
    row of the assembled system applied to the translation state is within
@@ -110,6 +138,22 @@ Proof.
   split; [vm_compute; reflexivity|].
   split; [intros r Hr; apply (system_solution ex_inst [1; -(2)] ex_inst_certified eq_refl r Hr)|].
   split; vm_compute; reflexivity.
+Qed.
+
+(* Non-vacuity of the non-singularity certificate: the concrete instance carries one (8 x 8),
+   check accepts it, so its kernel is trivial and the translation is its unique solution. *)
+Example C16_nonvacuous_nonsingular :
+  exists N d, i_inv ex_inst = Some (N, d) /\ ~ d == 0 /\
+    RowInv.inv_ok (ndof ex_inst) (system_rows ex_inst) N d = true /\ ndof ex_inst = 8%nat.
+Proof.
+  destruct (i_inv ex_inst) as [[N d]|] eqn:E; [|vm_compute in E; discriminate].
+  exists N, d. split; [reflexivity|].
+  assert (H : RowInv.inv_ok (ndof ex_inst) (system_rows ex_inst) N d = true)
+    by (apply (check_inv 0 ex_inst N d ex_inst_check E)).
+  split; [|split; [exact H|reflexivity]].
+  intros Hd. unfold RowInv.inv_ok in H. apply andb_prop in H. destruct H as [H _].
+  apply andb_prop in H. destruct H as [H _]. apply negb_true_iff in H.
+  apply Qeq_bool_iff in Hd. congruence.
 Qed.
 
 (* Non-vacuity of the difference form: an interior-face row  w (u_{c2,k} - u_{c1,k})  and a
